@@ -227,3 +227,53 @@ func VH_C16_strict() {
 	o := vRunReader(which, data, false)
 	vAssert("C16.strict.rejected-with-error", o.err && !o.done)
 }
+
+// VH_C16_longline: a record whose sequence is one line of LEN columns (beyond bufio's default 64 KiB token
+// size, within gofasta's 1 MiB) is read identically by all four readers, whether on one line or re-wrapped.
+func VH_C16_longline() {
+	n := vParam("LEN")
+	line := make([]byte, n)
+	for i := range line {
+		line[i] = "ACGT"[i%4]
+	}
+	line[n/2] = vNuc("mid", "ACGTN-acgtn")
+	line[n-1] = vNuc("last", "ACGTN-acgtn")
+	oneLine := append([]byte(">r0 d\n"), line...)
+	oneLine = append(oneLine, []byte("\n>r1\n")...)
+	oneLine = append(oneLine, line...)
+	oneLine = append(oneLine, '\n')
+	var wrapped []byte
+	for r := 0; r < 2; r++ {
+		wrapped = append(wrapped, []byte(">r"+string(rune('0'+r)))...)
+		if r == 0 {
+			wrapped = append(wrapped, []byte(" d")...)
+		}
+		wrapped = append(wrapped, '\n')
+		for i := 0; i < n; i += 30000 {
+			j := i + 30000
+			if j > n {
+				j = n
+			}
+			wrapped = append(wrapped, line[i:j]...)
+			wrapped = append(wrapped, '\n')
+		}
+	}
+	for which := 0; which < 4; which++ {
+		a := vRunReader(which, oneLine, false)
+		b := vRunReader(which, wrapped, false)
+		vAssert("C16.long.accepted-in-both-layouts", a.done && !a.err && b.done && !b.err)
+		if which == 3 {
+			vAssert("C16.long.plain-two-records", len(a.plain) == 2 && len(b.plain) == 2)
+			if len(a.plain) == 2 && len(b.plain) == 2 {
+				vAssert("C16.long.plain-same-sequence", len(a.plain[1].Seq) == n && a.plain[1].Seq == b.plain[1].Seq && a.plain[0].Seq == b.plain[0].Seq)
+			}
+			continue
+		}
+		vAssert("C16.long.two-records", len(a.recs) == 2 && len(b.recs) == 2)
+		if len(a.recs) == 2 && len(b.recs) == 2 {
+			vAssert("C16.long.same-length", len(a.recs[1].Seq) == n && len(b.recs[1].Seq) == n && len(a.recs[0].Seq) == n)
+			vAssert("C16.long.same-symbolic-positions", a.recs[1].Seq[n/2] == b.recs[1].Seq[n/2] && a.recs[1].Seq[n-1] == b.recs[1].Seq[n-1] && a.recs[0].Seq[n-1] == b.recs[0].Seq[n-1])
+			vAssert("C16.long.same-score", a.recs[1].Score == b.recs[1].Score)
+		}
+	}
+}
